@@ -23,14 +23,14 @@ func findOutputDeps(instrs []*instruction) {
 // findOutputDepsReg finds register-based output dependencies in the code.
 func findOutputDepsReg(ins *instruction, regs keyInsMap) {
 	for r := range ins.outRegs {
-		dep, ok := regs[r]
-		if !ok {
-			regs[r] = ins
-			continue
+		// We are certain that dep != ins.
+		if dep, ok := regs[r]; ok {
+			addDep(ins, dep)
 		}
 
-		// We are certain that i != ins.
-		addDep(ins, dep)
+		// The closest following write is the one any previous write has
+		// to be ordered with.
+		regs[r] = ins
 	}
 }
 
